@@ -214,13 +214,25 @@ def _inline_helpers(py: PyRepo, ci: ClassInfo, mf: MethodFacts, depth: int):
             if hit is None:
                 continue
             owner, hfn = hit
+            # a helper that touches the tracked state (stack / memory / claims / output) must be modelled, or the caller's effect
+            # is unknown - passing over it would report "pops nothing, writes nothing" for code that does
+            touches = any(isinstance(n, ast.Attribute) and isinstance(n.value, ast.Name) and n.value.id == 'self'
+                          and n.attr in ('stack', 'memory', 'claims', 'out') for n in ast.walk(hfn))
+
+            def give_up(why):
+                if touches:
+                    raise AnalysisError(f'{ci.name}.{mf.meth}: the helper {o[1]}() works on the tracked state in a way outside the analysed '
+                                        f'subset ({why}); its effect on the stack / output cannot be decided')
             if any(isinstance(n, (ast.For, ast.While)) for n in ast.walk(hfn)):
+                give_up('a loop')
                 continue
             try:
                 hf = level_facts(py, owner, o[1], depth + 1)
-            except AnalysisError:
+            except AnalysisError as e:
+                give_up(str(e))
                 continue
             if hf is None or len(hf.paths) != 1:
+                give_up('several paths')
                 continue
             h = hf.paths[0]
             hparams = [a.arg for a in hfn.args.args[1:]]
